@@ -502,3 +502,7 @@ M('C04', 'apply-returns-plain-dict', DEC, '    merged = nbformat.from_dict(merge
 T('C04', 'twin-id-from-remote', STR, '                # recorded here: the merged cell keeps the local one\n                cell[k] = lcell[k]\n', '                cell[k] = rcell[k]\n')
 T('C04', 'twin-metadata-dict-call-free', STR, '                cell[k] = {\n                    "local_metadata": lcell[k],\n                    "remote_metadata": rcell[k],\n                }',
   '                cell[k] = {"local_metadata": lcell[k], "remote_metadata": rcell[k], "note": "conflict"}')
+
+M('C20', 'store-opens-before-parsing', SRV,
+  "        body = json.loads(escape.to_unicode(self.request.body))\n        merged = body['merged']\n        merged_nb = nbformat.from_dict(merged)\n\n        # Somehow store unsolved conflicts?\n        # conflicts = body['conflicts']\n\n        with io.open(path, 'w', encoding='utf8') as f:\n            nbformat.write(merged_nb, f)",
+  "        with io.open(path, 'w', encoding='utf8') as f:\n            body = json.loads(escape.to_unicode(self.request.body))\n            merged = body['merged']\n            merged_nb = nbformat.from_dict(merged)\n            nbformat.write(merged_nb, f)", 'R20.7')
